@@ -87,7 +87,7 @@ type c10Case struct {
 	DLTarget int `json:"dl_target"`
 }
 
-var c10Scenarios = []string{"publish", "modack-zero-spanning", "ack-ordered-predecessor", "nack-deadletters-predecessor", "deadletter-forward-into-topic", "seek-back", "sweep-forward-into-topic"}
+var c10Scenarios = []string{"publish", "modack-zero-spanning", "ack-ordered-predecessor", "nack-deadletters-predecessor", "deadletter-forward-into-topic", "seek-back", "sweep-forward-into-topic", "seek-time-acks-ordered-predecessor", "seek-snapshot-acks-ordered-predecessor"}
 
 const (
 	c10T, c10D = "projects/p/topics/t", "projects/p/topics/d"
@@ -292,6 +292,48 @@ func runC10(s *sut.SUT, cs c10Case) (rule, detail string, nontrivial bool) {
 		writer = func() error {
 			_, err := s.Sub.Seek(ctx, &pubsubpb.SeekRequest{Subscription: c10Sub(0), Target: &pubsubpb.SeekRequest_Time{Time: timestamppb.New(before)}})
 			return err
+		}
+		if len(cs.Placement) > 1 {
+			cs.Placement = cs.Placement[:1]
+		}
+	case "seek-time-acks-ordered-predecessor", "seek-snapshot-acks-ordered-predecessor":
+		// a seek that only ACKNOWLEDGES (revives nothing) completes the leased
+		// predecessor of a same-key message on an ordered subscription: the
+		// successor becomes deliverable by that commit
+		_, err := s.Sub.CreateSubscription(ctx, &pubsubpb.Subscription{Name: c10Sub(0), Topic: c10T, EnableMessageOrdering: true, RetryPolicy: long})
+		must(err)
+		_, err = s.Sub.CreateSubscription(ctx, &pubsubpb.Subscription{Name: c10Sub(1), Topic: c10T, RetryPolicy: long})
+		must(err)
+		publish(c10T, `{"m":"first","key":1}`)
+		time.Sleep(5 * time.Millisecond)
+		mid := time.Now()
+		time.Sleep(5 * time.Millisecond)
+		publish(c10T, `{"m":"second","key":1}`)
+		rm := pull(c10Sub(0), 10)
+		if len(rm) != 1 {
+			panic(fmt.Sprintf("setup: expected only the first ordered message, got %d", len(rm)))
+		}
+		waiters = append(waiters, waiterSpec{c10Sub(0), `{"m":"second","key":1}`})
+		if cs.Scenario == "seek-time-acks-ordered-predecessor" {
+			writer = func() error {
+				_, err := s.Sub.Seek(ctx, &pubsubpb.SeekRequest{Subscription: c10Sub(0), Target: &pubsubpb.SeekRequest_Time{Time: timestamppb.New(mid)}})
+				return err
+			}
+		} else {
+			// the sibling acknowledges the first message only and is snapshotted
+			sr := pull(c10Sub(1), 10)
+			for _, m := range sr {
+				if string(m.Message.Data) == `{"m":"first","key":1}` {
+					_, err = s.Sub.Acknowledge(ctx, &pubsubpb.AcknowledgeRequest{Subscription: c10Sub(1), AckIds: []string{m.AckId}})
+					must(err)
+				}
+			}
+			_, err = s.Sub.CreateSnapshot(ctx, &pubsubpb.CreateSnapshotRequest{Name: "projects/p/snapshots/c10", Subscription: c10Sub(1)})
+			must(err)
+			writer = func() error {
+				_, err := s.Sub.Seek(ctx, &pubsubpb.SeekRequest{Subscription: c10Sub(0), Target: &pubsubpb.SeekRequest_Snapshot{Snapshot: "projects/p/snapshots/c10"}})
+				return err
+			}
 		}
 		if len(cs.Placement) > 1 {
 			cs.Placement = cs.Placement[:1]
